@@ -249,7 +249,7 @@ def one_pair(ctx, t1, t2, cases, corr=True, hyp_cases=None):
                 if not isinstance(res, Exception):
                     corrupt_cases.append((base, res, cnt.n))
         # --- correspondence ---
-        if corr and guard and fwd is not None:
+        if guard and fwd is not None:   # (a replay runs this block too: its cases are simply not compiled)
             rem, add = DC.impl_orders(d)
             # reversed delta orders
             rd = Delta(dd, bidirectional=True)
@@ -264,7 +264,7 @@ def one_pair(ctx, t1, t2, cases, corr=True, hyp_cases=None):
             cases.append((DC.model_expr(t1, t2, zip_, thr, True, False, t2, conv, rrem, radd, want="sub"),
                           [payload, [DC.canon_unordered(back), False]], dict(tag, op="sub")))
             # the refusal in the model (a function of bidirectional only), always_include_values varied independently
-            for aiv in (False, True):
+            for aiv in ((False, True) if (ctx.thorough or rng.random() < 0.5) else ()):
                 try:
                     dird = Delta(dd, always_include_values=aiv)
                     cases.append((DC.model_expr(t1, t2, zip_, thr, False, aiv, t2, conv, rem, add, want="sub"),
@@ -273,7 +273,7 @@ def one_pair(ctx, t1, t2, cases, corr=True, hyp_cases=None):
                 except Exception:
                     pass
             # --- operation sequences on ONE Delta object: the model's apply is a pure function of (delta, base) ---
-            if corrupt_cases and rng.random() < (0.5 if ctx.thorough else 0.35):
+            if corrupt_cases and (not corr or rng.random() < (0.5 if ctx.thorough else 0.35)):
                 cbase = corrupt_cases[0][0]
                 seq = [("add", cbase), ("add", cbase), ("add", t1), ("sub", t2), ("add", cbase), ("add", cbase)]
                 ctx.count("reuse_sequences")
